@@ -12,7 +12,7 @@
    atomic calls yields the sequential results; thread safety of the real code is therefore covered only PARTIALLY
    (sampled schedules in the harness). *)
 From Coq Require Import List Bool NArith ZArith Permutation.
-From PV Require Import Base.Str Base.Value Resolver.Consts Purity.Heap Purity.Api Purity.Facts Purity.Sym.
+From PV Require Import Base.Str Base.Value Resolver.Consts Purity.Heap Purity.Api Purity.Facts Purity.HistoryLaws Purity.Sym.
 Import ListNotations.
 Local Open Scope N_scope.
 
@@ -236,3 +236,149 @@ Example C06_leaf_copy_ok :
   | None => false
   end = true.
 Proof. vm_compute. reflexivity. Qed.
+
+(* ---------------------------------------------------------------------------------------------------------- *)
+(* LAWS OVER WHOLE HISTORIES (Purity/HistoryLaws.v).
+   A history is a list of calls naming objects by CONCRETE id; [valid_run sm s cs] says that each call names objects
+   that exist when it runs -- initial objects or the results of earlier calls ([run_state] / [run_vals] are the final
+   state and the list of result values of api_run REPAIRED).  Ids are handed out deterministically (fresh = succ hi),
+   so removing / repeating / moving a call shifts the id of every object allocated after it.  DELETION, DUPLICATION
+   and PERMUTATION are therefore stated for an arbitrary valid prefix [pre] (its calls may use each other's results)
+   followed by calls that name objects existing at the edit point (initial objects or results of the prefix):
+   side condition  Forall (within (hp (run_state sm s pre))) post.  C06_delete_needs_side_condition shows that the law
+   without it is false for id-named histories (an artefact of naming by id, not a behaviour of the library).
+   The _eval cache needs NO side condition in any of the laws: [cache_ok] is an invariant of valid histories
+   (C06_cache_invariant), a CEval call writes only [ev] and temporaries, and its value is that of the unfilled cache. *)
+
+(* REPLAY.  In any valid history, the k-th call -- if its arguments are initial objects -- returns exactly what it
+   returns when it is the only call ever made: [pure_val] on the initial heap.  Earlier calls (including those that
+   consumed each other's results, and CEval calls that filled caches) are invisible to it. *)
+Theorem C06_replay : forall (sm : sem) (s : state) (cs : list call) (k : nat) (c : call),
+  cache_ok s -> valid_run sm s cs -> nth_error cs k = Some c -> within (hp s) c ->
+  nth_error (run_vals sm s cs) k = Some (pure_val sm (hp s) c) /\
+  pure_val sm (hp s) c = rval (snd (api_step REPAIRED sm s c)).
+Proof. exact replay_thm. Qed.
+Print Assumptions C06_replay.
+
+(* prefix used by the examples: resolve, then a query on the RESULT of that resolve (object 9) *)
+Definition hl_pre : list call := [CResolve 4 (Some 5); CQuery 0 9].
+Definition hl_s1 : state := run_state SYM ex_state hl_pre.
+Example C06_ex_replay :
+  let cs := hl_pre ++ [CExpand 9; CResolve 4 (Some 5)] in
+  cache_ok ex_state /\ valid_run SYM ex_state cs /\ nth_error cs 3 = Some (CResolve 4 (Some 5)) /\
+  within (hp ex_state) (CResolve 4 (Some 5)) /\ ~ within (hp ex_state) (CExpand 9).
+Proof.
+  split; [apply no_cache_ok|]. split; [vm_compute; repeat split; repeat constructor; discriminate|].
+  split; [reflexivity|]. split; [repeat constructor; vm_compute; discriminate|].
+  intros W. inversion W as [|? ? W1 ?]; subst. vm_compute in W1. apply W1. reflexivity.
+Qed.
+
+(* DELETION.  Removing one call from a history leaves the result of every other call unchanged. *)
+Theorem C06_delete_unused_call : forall (sm : sem) (s : state) (pre post : list call) (c : call),
+  cache_ok s -> valid_run sm s pre ->
+  let s1 := run_state sm s pre in
+  within (hp s1) c -> Forall (within (hp s1)) post ->
+  run_vals sm s (pre ++ post) = drop_nth (length pre) (run_vals sm s (pre ++ c :: post)).
+Proof. exact delete_thm. Qed.
+Print Assumptions C06_delete_unused_call.
+
+Definition hl_post : list call := [CQuery 1 9; CResolve 4 None; CEval 4 5].
+Example C06_ex_delete :
+  cache_ok ex_state /\ valid_run SYM ex_state hl_pre /\ within (hp hl_s1) (CExpand 9) /\
+  Forall (within (hp hl_s1)) hl_post /\
+  run_vals SYM ex_state (hl_pre ++ hl_post) = drop_nth 2 (run_vals SYM ex_state (hl_pre ++ CExpand 9 :: hl_post)).
+Proof.
+  split; [apply no_cache_ok|]. split; [vm_compute; repeat split; repeat constructor; discriminate|].
+  split; [repeat constructor; vm_compute; discriminate|].
+  split; [repeat constructor; vm_compute; discriminate|]. vm_compute. reflexivity.
+Qed.
+
+(* the side condition is needed for histories that name objects by id: [parse 4; parse 4; query 9] is valid, 9 being
+   the result of the SECOND parse; the first parse (result 7) is used by nobody; without it the second parse returns
+   object 7 and id 9 names nothing *)
+Example C06_delete_needs_side_condition :
+  let cs := [CParse 4; CParse 4; CQuery 0 9] in
+  valid_run SYM ex_state cs /\ map rid (snd (api_run REPAIRED SYM ex_state cs)) = [Some 7; Some 9; None] /\
+  match nth_error (run_vals SYM ex_state (drop_nth 0 cs)) 1, nth_error (drop_nth 0 (run_vals SYM ex_state cs)) 1 with
+  | Some a, Some b => vstrict_eqb a b
+  | _, _ => true
+  end = false.
+Proof. split; [vm_compute; repeat split; repeat constructor; discriminate|]. vm_compute. split; reflexivity. Qed.
+
+(* DUPLICATION.  Repeating a call at once: equal value; when the call returns a model, a second, new object;
+   the results of all other calls are what they were. *)
+Theorem C06_repeat_call : forall (sm : sem) (s : state) (pre post : list call) (c : call),
+  cache_ok s -> valid_run sm s pre ->
+  let s1 := run_state sm s pre in
+  within (hp s1) c -> Forall (within (hp s1)) post ->
+  let x1 := snd (api_step REPAIRED sm s1 c) in
+  let x2 := snd (api_step REPAIRED sm (fst (api_step REPAIRED sm s1 c)) c) in
+  rval x2 = rval x1 /\
+  (if returns_model c then exists r1 r2, rid x1 = Some r1 /\ rid x2 = Some r2 /\ r1 < r2 /\
+                                         h_get (hp (fst (api_step REPAIRED sm s1 c))) r2 = None
+   else rid x1 = None /\ rid x2 = None) /\
+  run_vals sm s (pre ++ c :: c :: post) = run_vals sm s pre ++ rval x1 :: rval x1 :: run_vals sm s1 post /\
+  run_vals sm s (pre ++ c :: post) = run_vals sm s pre ++ rval x1 :: run_vals sm s1 post.
+Proof. exact repeat_thm. Qed.
+Print Assumptions C06_repeat_call.
+
+Example C06_ex_repeat :
+  map rid (snd (api_run REPAIRED SYM ex_state (hl_pre ++ CExpand 9 :: CExpand 9 :: hl_post)))
+    = [Some 9; None; Some 11; Some 13; None; Some 17; None] /\
+  (match run_vals SYM ex_state (hl_pre ++ CExpand 9 :: CExpand 9 :: hl_post) with
+   | [_; _; a; b; _; _; _] => vstrict_eqb a b | _ => false end) = true.
+Proof. vm_compute. split; reflexivity. Qed.
+
+(* PERMUTATION.  Calls that do not use each other's results may run in any order: the multiset of
+   (call, result value) pairs is the same, and so is every object that existed before them. *)
+Theorem C06_swap_independent_calls : forall (sm : sem) (s : state) (pre post post' : list call),
+  cache_ok s -> valid_run sm s pre ->
+  let s1 := run_state sm s pre in
+  Forall (within (hp s1)) post -> Permutation post post' ->
+  Permutation (combine (pre ++ post) (run_vals sm s (pre ++ post)))
+              (combine (pre ++ post') (run_vals sm s (pre ++ post'))) /\
+  (forall o, o <= hi (hp s1) ->
+     h_get (hp (run_state sm s (pre ++ post))) o = h_get (hp (run_state sm s (pre ++ post'))) o).
+Proof. exact swap_thm. Qed.
+Print Assumptions C06_swap_independent_calls.
+
+Theorem C06_swap_adjacent_calls : forall (sm : sem) (s : state) (pre post : list call) (c1 c2 : call),
+  cache_ok s -> valid_run sm s pre ->
+  let s1 := run_state sm s pre in
+  within (hp s1) c1 -> within (hp s1) c2 -> Forall (within (hp s1)) post ->
+  Permutation (combine (pre ++ c1 :: c2 :: post) (run_vals sm s (pre ++ c1 :: c2 :: post)))
+              (combine (pre ++ c2 :: c1 :: post) (run_vals sm s (pre ++ c2 :: c1 :: post))).
+Proof. exact swap_adjacent_thm. Qed.
+Print Assumptions C06_swap_adjacent_calls.
+
+Example C06_ex_swap :
+  Forall (within (hp hl_s1)) (CExpand 9 :: hl_post) /\
+  Permutation (CExpand 9 :: hl_post) (CQuery 1 9 :: CExpand 9 :: CEval 4 5 :: [CResolve 4 None]) /\
+  (match run_vals SYM ex_state (hl_pre ++ CExpand 9 :: hl_post),
+         run_vals SYM ex_state (hl_pre ++ CQuery 1 9 :: CExpand 9 :: CEval 4 5 :: [CResolve 4 None]) with
+   | [_; _; a; b; c; d], [_; _; b'; a'; d'; c'] =>
+       vstrict_eqb a a' && vstrict_eqb b b' && vstrict_eqb c c' && vstrict_eqb d d'
+   | _, _ => false end) = true.
+Proof.
+  split; [repeat constructor; vm_compute; discriminate|]. split; [|vm_compute; reflexivity].
+  apply perm_trans with (CQuery 1 9 :: CExpand 9 :: [CResolve 4 None; CEval 4 5]); [apply perm_swap|].
+  repeat apply perm_skip. apply perm_swap.
+Qed.
+
+(* INITIAL OBJECTS ARE IMMUTABLE.  After ANY history (no validity or cache hypothesis), every object that existed at
+   the start -- templates, parameter dicts, contexts, whitelists, models -- and each process-wide default is the very
+   same object with the same content, the same deep snapshot at every depth, and so is everything reachable from it. *)
+Theorem C06_initial_objects_immutable : forall (sm : sem) (s : state) (cs : list call) (o : oid),
+  o <= hi (hp s) \/ o = PSEUDO_ID \/ o = CATALOGUE_ID \/ o = STRICT_ID ->
+  let s' := run_state sm s cs in
+  h_get (hp s') o = h_get (hp s) o /\ h_obj (hp s') o = h_obj (hp s) o /\
+  (forall n, snap n (hp s') o = snap n (hp s) o) /\
+  (forall o', reach (hp s) o o' -> h_get (hp s') o' = h_get (hp s) o').
+Proof. exact initial_immutable_thm. Qed.
+Print Assumptions C06_initial_objects_immutable.
+
+Example C06_ex_initial_immutable :
+  let s' := run_state SYM ex_state (hl_pre ++ CExpand 9 :: CExpand 9 :: hl_post) in
+  h_get (hp s') 4 = Some ex_model /\ h_get (hp s') 5 = Some ex_ep /\ N.ltb 15 (hi (hp s')) = true /\
+  e_get (ev s') 4 <> None.
+Proof. vm_compute. repeat split. discriminate. Qed.
